@@ -8,6 +8,7 @@ from sa import defuse
 from sa import index
 from sa import tables
 from sa.consteval import Ref
+from sa.consteval import Obj
 from sa.rules import common
 from sa.rules import shared
 from sa.rules import c15
@@ -248,6 +249,186 @@ def r8_constant_path(ctx):
   ctx.check(R, rets == [want], gd.node, gd, f'returns {rets}', 'constant data must be decoded with the tensor\'s own buffer, dtype and shape')
 
 
+def r10_constant_carries_data(ctx, R='C05.R10'):
+  """Decision table of _get_tensor_transformation_params_wrapper: whenever a
+  CONSTANT operand is annotated with quantization parameters and a
+  transformation that stores it in the quantized type (QUANTIZE_TENSOR /
+  ADD_DEQUANTIZE / EMULATED_SUBCHANNEL), the parameters carry the quantized
+  bytes - also when the parameters were imposed from outside (same-scale
+  constraints hand the output's parameters to the inputs). Otherwise the tensor
+  is retyped and its float buffer stays (defect F14)."""
+  from sa import absint  # pylint: disable=g-import-not-at-top
+  from sa.ndarr import NdArr  # pylint: disable=g-import-not-at-top
+  rs = ctx.rule(R, 'a constant operand that is stored quantized carries its quantized data, whoever supplied the parameters (table over mode x constant x imposed parameters)', floor=1)
+  w = ctx.repo.func(f'{shared.MMU}:_get_tensor_transformation_params_wrapper')
+  ctx.instance(R)
+  UQP = 'qtyping:UniformQuantParams'
+  CP = {e.name: e for e in tables.enum(ctx, 'qtyping:ComputePrecision')}
+  OPN = {e.name: e for e in tables.op_names(ctx)}
+  w8 = tables.tensor_config(ctx, num_bits=8)
+  a8 = tables.tensor_config(ctx, num_bits=8, symmetric=False)
+  modes = {
+      'static-range': tables.construct(ctx, common.OPCFG, weight_tensor_config=w8, activation_tensor_config=a8, compute_precision=CP['INTEGER']),
+      'dynamic-range': tables.construct(ctx, common.OPCFG, weight_tensor_config=w8, compute_precision=CP['INTEGER']),
+      'weight-only': tables.construct(ctx, common.OPCFG, weight_tensor_config=w8, compute_precision=CP['FLOAT'], explicit_dequantize=True),
+  }
+
+  def params(data, own=False):
+    return Obj(UQP, {'num_bits': 8, 'quantized_dimension': None, 'scale': 'S_own' if own else 'S', 'zero_point': 'Z_own' if own else 'Z', 'symmetric': False,
+                     'quantized_data': data, 'block_size': 0, 'hadamard': None})
+  rs.exhaustive = True
+  for mname, cfg in modes.items():
+    for opn in ('CONCATENATION', 'FULLY_CONNECTED', 'ADD'):
+      if opn not in OPN:
+        continue
+      okc, _ = tables.accepts(ctx, tables.enum_member(ctx, 'algorithm_manager:AlgorithmName', 'MIN_MAX_UNIFORM_QUANT'), OPN[opn], cfg)
+      if not okc:
+        continue   # the policy refuses this (operator, mode): the row is unreachable
+      for constant, inbound, imposed in [(c, i, p) for c in (True, False) for i in (True, False) for p in ('none', 'without data', 'with data')]:
+        if constant and not inbound:
+          continue
+        content = NdArr((2, 2), [1, 2, 3, 4]) if constant else None
+        given = None if imposed == 'none' else params(None if imposed == 'without data' else 'IMPOSED-DATA')
+        hooks = {
+            'tfl_flatbuffer_utils.get_tensor_data': lambda a, k, content=content: content,
+            'tfl_flatbuffer_utils.get_tensor_name': lambda a, k: 't',
+            f'{shared.MMU}:_get_tensor_quant_params': lambda a, k: params('COMPUTED-DATA' if (k.get('tensor_content') if 'tensor_content' in k else (a[3] if len(a) > 3 else None)) is not None else None, own=True),
+            f'{shared.MMU}:init_tensor_min_max': lambda a, k: {'min': 0, 'max': 1},
+            'uniform_quantize_tensor.uniform_quantize': lambda a, k: 'QUANTIZED(' + ('content' if isinstance(a[0], NdArr) else repr(a[0])) + ')',
+        }
+        it = absint.Interp(ctx.repo, ctx.ev, hooks=hooks)
+        op_info = Obj('qtyping:OpInfo', {'op': Obj('x:OperatorT', {'inputs': [0], 'outputs': [1]}), 'op_name': OPN[opn], 'subgraph_op_index': 3, 'op_quant_config': cfg})
+        gi = Obj('qtyping:GraphInfo', {'subgraph_tensors': [], 'buffers': []})
+        label = f'{mname}, {opn}, {"constant" if constant else "runtime"} {"input" if inbound else "output"}, parameters imposed: {imposed}'
+        outs = it.outcomes(w, [Obj('x:TensorT', {'name': b't', 'shape': [2, 2], 'buffer': 1}), inbound, op_info, gi, {'t': {'min': 0, 'max': 1}}, given], copy_args=False)
+        if len(outs) != 1:
+          ctx.check(R, False, w.node, w, label, f'not decided: {[o.short()[:80] for o in outs]}')
+          continue
+        if outs[0].kind != 'return':
+          continue   # a rejected combination (e.g. no statistics): nothing is stored
+        res = outs[0].value
+        o2t = (res.fields['consumers'] or [None])[0] if inbound else res.fields['producer']
+        if not isinstance(o2t, Obj):
+          ctx.check(R, False, w.node, w, label, 'no parameters entry returned')
+          continue
+        kinds = [t.name for t in o2t.fields['transformations']]
+        p = o2t.fields['parameters']
+        stored_quantized = constant and any(k in ('QUANTIZE_TENSOR', 'ADD_DEQUANTIZE', 'EMULATED_SUBCHANNEL') for k in kinds)
+        if stored_quantized:
+          ok = isinstance(p, Obj) and p.fields.get('quantized_data') is not None
+          ctx.check(R, ok, w.node, w, f'{label} -> {kinds}, data {p.fields.get("quantized_data") if isinstance(p, Obj) else p!r}',
+                    f'the constant is stored in the quantized type ({kinds}) but its parameters carry no quantized data: the tensor is retyped while its float buffer stays')
+          if ok and imposed != 'none':
+            ctx.check(R, p.fields['scale'] == 'S' and p.fields['zero_point'] == 'Z', w.node, w, label, 'imposed scale / zero point must be kept')
+        elif isinstance(p, Obj) and imposed != 'none':
+          ctx.check(R, p.fields['scale'] == 'S' and p.fields['zero_point'] == 'Z', w.node, w, label, 'imposed scale / zero point must be kept')
+
+
+def r11_constant_numeric_table(ctx, R='C05.R11'):
+  """The whole constant path on small integer-valued weights with the exact
+  array model: init_tensor_min_max -> _get_tensor_quant_params (zero point /
+  scale from min / max, rank fix, uniform_quantize). Oracle, per element:
+  the stored code is an in-range integer and code * scale(channel) is within
+  half a step of the weight, where channel is taken along the dimension the
+  runtime kernel expects; the parameters carry that dimension and one scale per
+  channel equal to max|w| / qmax."""
+  import fractions  # pylint: disable=g-import-not-at-top
+  import itertools  # pylint: disable=g-import-not-at-top
+  from sa import absint  # pylint: disable=g-import-not-at-top
+  from sa.ndarr import NdArr  # pylint: disable=g-import-not-at-top
+  F = fractions.Fraction
+  rs = ctx.rule(R, 'constant quantization, end to end on small weights: per-channel scale = max|w|/qmax along the kernel\'s dimension, every stored code within half a step, nothing wraps', floor=1)
+  init = ctx.repo.func(f'{shared.MMU}:init_tensor_min_max')
+  gq = ctx.repo.func(f'{shared.MMU}:_get_tensor_quant_params')
+  ctx.instance(R)
+  OPN = {e.name: e for e in tables.op_names(ctx)}
+  G = {e.name: e for e in tables.enum(ctx, 'qtyping:QuantGranularity')}
+  CP = {e.name: e for e in tables.enum(ctx, 'qtyping:ComputePrecision')}
+  cases = [('FULLY_CONNECTED', (3, 4), None, 0), ('DEPTHWISE_CONV_2D', (1, 2, 2, 3), None, 3), ('CONV_2D', (2, 2, 1, 2), None, 0),
+           ('BATCH_MATMUL', (2, 3, 2), False, 2), ('BATCH_MATMUL', (2, 3, 2), True, 1), ('EMBEDDING_LOOKUP', (4, 3), None, 0)]
+  rs.exhaustive = True
+  for (op, shape, adj, dim), gran, bits in itertools.product(cases, ('CHANNELWISE', 'TENSORWISE'), (8, 4)):
+    if op not in OPN:
+      continue
+    n = 1
+    for s_ in shape:
+      n *= s_
+    vals = [(((k * 7 + 3) % n) - n // 2) * (1 + (k % 3)) for k in range(n)]   # distinct magnitudes per channel
+    arr = NdArr(shape, vals)
+    wcfg = tables.tensor_config(ctx, num_bits=bits, granularity=G[gran])
+    cfg = tables.construct(ctx, common.OPCFG, weight_tensor_config=wcfg, compute_precision=CP['INTEGER'])
+    op_obj = Obj('x:OperatorT', {'inputs': [0, 1], 'outputs': [2], 'builtinOptions': Obj('x:BatchMatMulOptionsT', {'adjX': False, 'adjY': bool(adj)})})
+    op_info = Obj('qtyping:OpInfo', {'op': op_obj, 'op_name': OPN[op], 'subgraph_op_index': 0, 'op_quant_config': cfg})
+    it = absint.Interp(ctx.repo, ctx.ev, hooks={'tfl_flatbuffer_utils.get_tensor_data': lambda a, k, arr=arr: arr, 'np.issubdtype': lambda a, k: True})
+    tensor = Obj('x:TensorT', {'name': b'w', 'shape': list(shape), 'buffer': 1})
+    label = f'{op}{" adj_y" if adj else ""} weights {shape}, {gran}, {bits}-bit'
+    o1 = it.outcomes(init, [tensor, Obj('qtyping:GraphInfo', {'subgraph_tensors': [tensor], 'buffers': []}), op_info], copy_args=False)
+    if len(o1) != 1 or o1[0].kind != 'return' or not isinstance(o1[0].value, dict):
+      ctx.check(R, False, init.node, init, label, f'statistics not decided: {[o.short()[:100] for o in o1]}')
+      continue
+    o2 = it.outcomes(gq, [op_info, o1[0].value, wcfg, arr], copy_args=False)
+    if len(o2) != 1 or o2[0].kind != 'return' or not isinstance(o2[0].value, Obj):
+      ctx.check(R, False, gq.node, gq, label, f'parameters not decided (a cast that wraps shows as OverflowError): {[o.short()[:120] for o in o2]}')
+      continue
+    P = o2[0].value.fields
+    qmax = (1 << (bits - 1)) - 1
+    want_dim = dim if gran == 'CHANNELWISE' else None
+    ctx.check(R, P['num_bits'] == bits and P['symmetric'] is True, gq.node, gq, f'{label}: num_bits {P["num_bits"]} symmetric {P["symmetric"]}', 'the parameters must carry the configured width and symmetry')
+    ctx.check(R, P['quantized_dimension'] == want_dim, gq.node, gq, f'{label}: quantized_dimension {P["quantized_dimension"]}', f'the parameters must carry quantized dimension {want_dim}')
+    sc, zp, qd = P['scale'], P['zero_point'], P['quantized_data']
+    if not (isinstance(sc, NdArr) and isinstance(zp, NdArr) and isinstance(qd, NdArr)):
+      ctx.check(R, False, gq.node, gq, label, f'scale / zero point / data not folded: {type(sc).__name__}, {type(zp).__name__}, {type(qd).__name__}')
+      continue
+    nch = shape[dim] if gran == 'CHANNELWISE' else 1
+    ctx.check(R, sc.size == nch and zp.size == nch and qd.shape == tuple(shape), gq.node, gq, f'{label}: {sc.size} scales, data shape {qd.shape}',
+              f'expected {nch} scale(s) / zero point(s) and data of shape {tuple(shape)}')
+    if sc.size != nch or qd.shape != tuple(shape):
+      continue
+    problems = []
+    for c in range(nch):
+      members = [idx for idx in itertools.product(*[range(s_) for s_ in shape]) if gran != 'CHANNELWISE' or idx[dim] == c]
+      bound = max(abs(arr.at(i)) for i in members)
+      want_scale = F(bound, qmax) if bound else None
+      s_c = F(sc.data[c])
+      if want_scale is not None and abs(s_c - want_scale) > want_scale / 10 ** 9:
+        problems.append(f'scale of channel {c} is {float(s_c):.6g}, max|w|/qmax over that channel is {float(want_scale):.6g}')
+        continue
+      if zp.data[c] != 0:
+        problems.append(f'zero point of channel {c} is {zp.data[c]} for a symmetric weight')
+      for i in members:
+        code = qd.at(i)
+        if code != int(code) or not -qmax <= code <= qmax:
+          problems.append(f'code {code} at {i} outside the narrow range [-{qmax}, {qmax}]')
+        elif abs(F(code) * s_c - arr.at(i)) > s_c / 2 + s_c / 10 ** 9:
+          problems.append(f'weight {arr.at(i)} at {i} stored as {code} * {float(s_c):.6g}: more than half a step off')
+    ctx.check(R, not problems, gq.node, gq, label, '; '.join(problems[:3]))
+  # runtime tensors (no content): asymmetric parameters from (min, max) - the order of the two matters here
+  for bits, mn, mx in ((8, -1, 3), (8, 2, 6), (16, -5, 1)):
+    acfg = tables.tensor_config(ctx, num_bits=bits, symmetric=(bits == 16))
+    cfg = tables.construct(ctx, common.OPCFG, weight_tensor_config=tables.tensor_config(ctx, num_bits=8), activation_tensor_config=acfg, compute_precision=CP['INTEGER'])
+    op_info = Obj('qtyping:OpInfo', {'op': Obj('x:OperatorT', {'inputs': [0], 'outputs': [1], 'builtinOptions': None}), 'op_name': OPN['FULLY_CONNECTED'], 'subgraph_op_index': 0, 'op_quant_config': cfg})
+    it = absint.Interp(ctx.repo, ctx.ev, hooks={'np.issubdtype': lambda a, k: True})
+    stats = {'min': NdArr((1, 1), [F(mn)]), 'max': NdArr((1, 1), [F(mx)])}
+    label = f'runtime tensor, {bits}-bit {"symmetric" if bits == 16 else "asymmetric"}, statistics [{mn}, {mx}]'
+    o = it.outcomes(gq, [op_info, stats, acfg, None], copy_args=False)
+    if len(o) != 1 or o[0].kind != 'return' or not isinstance(o[0].value, Obj):
+      ctx.check(R, False, gq.node, gq, label, f'not decided: {[x.short()[:100] for x in o]}')
+      continue
+    P = o[0].value.fields
+    lo, hi = -(1 << (bits - 1)), (1 << (bits - 1)) - 1
+    if bits == 16:
+      want_sc, want_zp = F(max(abs(mn), abs(mx)), hi), 0
+    else:
+      want_sc = F(max(mx, 0) - min(mn, 0), hi - lo)
+      r = F(lo) - F(min(mn, 0)) / want_sc
+      fl = r.numerator // r.denominator
+      want_zp = fl + (1 if r - fl > F(1, 2) or (r - fl == F(1, 2) and fl % 2) else 0)
+    sc, zp = P['scale'], P['zero_point']
+    ok = isinstance(sc, NdArr) and isinstance(zp, NdArr) and sc.size == 1 and abs(F(sc.data[0]) - want_sc) <= want_sc / 10 ** 9 and zp.data[0] == want_zp and P['quantized_data'] is None \
+        and P['num_bits'] == bits and P['quantized_dimension'] is None
+    ctx.check(R, ok, gq.node, gq, f'{label}: scale {sc!r} zero point {zp!r}', f'expected scale {float(want_sc):.6g}, zero point {want_zp}, {bits} bits, no data, no quantized dimension')
+
+
 def run(ctx):
   ctx.assume('int4 storage: two values per byte, element 2i in the low nibble (O7)')
   shared.rule_ladders(ctx, 'C05.R1')
@@ -259,3 +440,5 @@ def run(ctx):
   r7_quantize_formula(ctx)
   r8_constant_path(ctx)
   shared.rule_rebuild_completeness(ctx, 'C05.R9')
+  r10_constant_carries_data(ctx)
+  r11_constant_numeric_table(ctx)
